@@ -56,7 +56,7 @@ def paramflow_pass(tier, known):
             for method in METHODS:
                 if not hasattr(K, method):
                     continue
-                it = Interp(K, method, max_paths=3000 if tier == "quick" else 20000).run()
+                it = Interp(K, method, max_paths=8000 if tier == "quick" else 20000).run()
                 evs = it.feasible_events()
                 res["states"] += it.paths
                 res["transitions"] += it.queries
@@ -152,7 +152,7 @@ def main(tier, seed, only):
 
 
 # ---------------------------------------------------------------- SlidingWindowClassifier (SYMX, dual scenario)
-def sc_sliding(d, window, only_labeled, nops, weights):
+def sc_sliding(d, window, only_labeled, nops, weights, buffer=False):
     """after any sequence of fit / partial_fit calls the wrapped classifier is (re)fitted on exactly the last
     `window` samples it was given (only the labeled ones with only_labeled=True)"""
     from harness.C19 import make_recording
@@ -160,13 +160,20 @@ def sc_sliding(d, window, only_labeled, nops, weights):
     inner = make_recording(False, d.np)
     clf = SlidingWindowClassifier(inner, classes=[0.0, 1.0], window_size=window, only_labeled=only_labeled)
     ref = []
+    # buffer=True: the caller re-uses ONE array object for every call and overwrites it in place (a stream reader's buffer):
+    # the window must hold the values that were handed over, not views of the caller's buffer
+    buf = d.arr([[0.0]], shape=(1, 1)) if buffer else None
     for step in range(nops):
         op = "fit" if step == 0 else d.choose(f"op{step}", ["partial_fit", "fit"])
-        m = d.choose(f"size{step}", [1, 2])
+        m = 1 if buffer else d.choose(f"size{step}", [1, 2])
         lab = [d.choose(f"label{step}_{i}", [-1, 0]) for i in range(m)]   # (which class is irrelevant here)
         xs = [d.fl(f"x{step}_{i}") for i in range(m)]
         ws = [d.fl(f"w{step}_{i}", lo=0.0) for i in range(m)] if weights else None
-        X = d.arr([[x] for x in xs], shape=(m, 1))
+        if buffer:
+            buf[0, 0] = xs[0]
+            X = buf
+        else:
+            X = d.arr([[x] for x in xs], shape=(m, 1))
         y = d.arr([float("nan") if k < 0 else float(k) for k in lab])
         sw = d.arr(ws) if weights else None
         getattr(clf, op)(X, y, sample_weight=sw)
@@ -191,7 +198,8 @@ from harness.common import dual_harness  # noqa: E402
 HARNESSES.append(dual_harness(
     "sliding_window_classifier", sc_sliding,
     lambda tier: [dict(window=w, only_labeled=ol, nops=n, weights=wt) for w in (2, 3) for ol in (False, True)
-                  for n in ((2, 3) if tier == "quick" else (2, 3, 4)) for wt in (False, True) if not (tier == "quick" and n == 3 and w == 3)],
+                  for n in ((2, 3) if tier == "quick" else (2, 3, 4)) for wt in (False, True) if not (tier == "quick" and n == 3 and w == 3)]
+    + [dict(window=2, only_labeled=ol, nops=3, weights=False, buffer=True) for ol in (False, True)],
     ["skactiveml.classifier._wrapper:SlidingWindowClassifier.fit", "skactiveml.classifier._wrapper:SlidingWindowClassifier.partial_fit",
      "skactiveml.classifier._wrapper:SlidingWindowClassifier._add_samples", "skactiveml.classifier._wrapper:SlidingWindowClassifier._fit"],
     required_witnesses=("ran",), max_paths=40000))
